@@ -170,4 +170,44 @@ theorem wide_path_class_swallows_shell_punctuation :
       "$(cat stage0.A0:ref/out/e.csv stage0.A1:ref/out/e.csv); sort stage0.A0:ref/e.csv stage0.A1:ref/e.csv| uniq" := by
   decide
 
+/-! ## the path class before /repo 'fix: a file path after an aggregated reference may contain ...'
+
+`[\w.*]` only: a file name such as `out-1.txt` was cut at the `-`, so copies 0..N-2 were consumed at a truncated
+path.  The modelled (repaired) class `Repl.isPathChar` keeps the file name whole. -/
+
+def isPathCharOld (c : Char) : Bool := isWord c || c == '.' || c == '*'
+
+def pathLenOld : Nat → S → Nat
+  | 0, _ => 0
+  | f + 1, '/' :: rest =>
+    let seg := rest.takeWhile isPathCharOld
+    if seg.isEmpty then 0 else 1 + seg.length + pathLenOld f (rest.drop seg.length)
+  | _ + 1, _ => 0
+
+def aggExpandOld (reps : List S) (after : S) : S × Nat :=
+  let pl := pathLenOld after.length after
+  if pl == 0 then (join [' '] reps, 0)
+  else
+    let path := after.take pl
+    let commas := (after.drop pl).takeWhile (· == ',')
+    if commas.isEmpty then (join [' '] (reps.map (· ++ path)), pl)
+    else (join [','] (reps.map (· ++ path ++ commas.drop 1)), pl + commas.length)
+
+def aggScanOld (keys : List (S × List S)) : Nat → Option Char → S → S
+  | _, _, [] => []
+  | k + 1, _, c :: s => aggScanOld keys k (some c) s
+  | 0, prev, c :: s =>
+    match (if leftOk prev then firstMatchAgg keys (c :: s) else none) with
+    | some kv =>
+      let e := aggExpandOld kv.2 ((c :: s).drop kv.1.length)
+      e.1 ++ aggScanOld keys (kv.1.length + e.2 - 1) (some c) s
+    | none => c :: aggScanOld keys 0 (some c) s
+
+theorem narrow_path_class_cut_file_names :
+    String.ofList (aggScanOld keysSim 0 none "cat A:ref/out-1.txt|wc".toList) =
+      "cat stage0.A0:ref/out stage0.A1:ref/out-1.txt|wc" ∧
+    String.ofList (aggScan keysSim 0 none "cat A:ref/out-1.txt|wc".toList) =
+      "cat stage0.A0:ref/out-1.txt stage0.A1:ref/out-1.txt|wc" := by
+  decide
+
 end St4sd.C03.Witness
